@@ -45,7 +45,7 @@ class C19(Check):
     required_probes = {'thorough': ['grew', 'alloc', 'bounded_refused', 'query_after_growth', 'ulp_query']}
 
     def strata(self, tier):
-        return [('S-grow', 5), ('S-bounded', 2), ('S-dup-times', 1), ('S-alloc-fault', 2), ('S-bad-update', 1)]
+        return [('S-grow', 5), ('S-bounded', 2), ('S-dup-times', 1), ('S-alloc-fault', 2), ('S-bad-update', 1), ('S-long', 0.5)]
 
     # ---------------------------------------------------------------- generation
     def generate(self, rng, stratum, tier):
@@ -64,10 +64,16 @@ class C19(Check):
             cfg['alloc'] = {'at_grow': rng.randint(1, 4), 'phase': rng.choice(['before', 'after', 'line', 'line']),
                             'line': rng.randint(1, 6)}
         nops = rng.randint(3, 200 if tier == 'thorough' else 80)
+        if stratum == 'S-long':
+            # sizes that short histories never reach: 600-2300 records (search windows, several growths of the default buffer),
+            # queries reaching back to the oldest records
+            nops = rng.randint(700, 2600)
+            cfg['cap'] = rng.choice([8, 1024, 1024])
+            cfg['verify_each'] = False
         ts = [cfg['t0']]
         qs = []
         ops = []
-        p_upd = rng.choice([0.3, 0.5, 0.7])
+        p_upd = rng.choice([0.3, 0.5, 0.7]) if stratum != 'S-long' else 0.9
         # a second live history of the same layout in the same process (what two models stepped alternately, or a kept
         # history of a finished run next to the next run's, look like): its operations are interleaved with the first's
         companion = rng.random() < 0.35
